@@ -196,12 +196,17 @@ pub fn run(tier: &str) -> i32 {
             let out = &outs[pi * configs.len() + ci];
             let text = match out {
                 Outcome::Ok(t) => t,
-                Outcome::Panic(m) if p.structs.iter().any(|s| s.rts) && m.contains("Runtime-sized array") => {
+                // documented rejections: a struct ending in a runtime-sized array needs encase and cannot take the bytemuck
+                // derives; such a struct is always host-shareable (it is a storage variable's type), so only the
+                // host-shareable bytemuck switch can ask for Pod on it - the vertex switch never applies to it
+                Outcome::Panic(m) if p.structs.iter().any(|s| s.rts) && m.contains("Runtime-sized array") && (!c.encase || c.bytemuck_host) => {
                     rep.filtered("documented panic: runtime-sized array with an unsupported option combination");
                     continue;
                 }
                 other => {
-                    rep.filtered(&format!("generator not Ok: {}", other.class()));
+                    // every program here is valid WGSL inside the feature set: a switch may only change the part it documents,
+                    // it may not make generation fail
+                    rep.violation(case, format!("an option combination that only selects derives makes generation fail: {}", other.class().chars().take(100).collect::<String>()), json!({"wgsl": p.src, "config": c.key()}));
                     continue;
                 }
             };
